@@ -32,7 +32,7 @@ pub static DEF: CheckDef = CheckDef {
     generate,
     execute,
     shrink,
-    rule: "each run = 3..8 real nodes in a mesh/star/line on addresses drawn from {IPv4 with boundary octets 0/1/127/128/254/255 and ports 1/1023/1024/65535, loopback with distinct ports, IPv6 loopback, IPv4-mapped, link-local, unique-local, global}, 2..6 lookups/puts from drawn nodes; 24 direct addresses per run: over the batch the grid {0,1,127,128,254,255}^4 x {0,1,65534,65535} is walked exhaustively (run index selects the slice) and the rest sampled uniformly from 2^48 and from the IPv6 classes; 6 word-form variants (hyphen, space, dot, mixed case, doubled separator, surrounding blanks) and 12 malformed strings per run; non-trivial = at least one address string crossed from a reply into a dial and at least one boundary address was round-tripped; distinct = distinct hash of the observation log",
+    rule: "each run = 3..8 real nodes in a mesh/star/line on addresses drawn from {IPv4 with boundary octets 0/1/127/128/254/255 and ports 1/1023/1024/65535, loopback with distinct ports, IPv6 loopback, IPv4-mapped, link-local, unique-local, global with zero runs, global with all eight groups set}, 2..6 lookups/puts from drawn nodes; 26 direct addresses per run: over the batch the grid {0,1,127,128,254,255}^4 x {0,1,65534,65535} is walked exhaustively (run index selects the slice) and the rest sampled uniformly from 2^48 and from the IPv6 classes; 6 word-form variants (hyphen, space, dot, mixed case, doubled separator, surrounding blanks) and 12 malformed strings per run; non-trivial = at least one address string crossed from a reply into a dial and at least one boundary address was round-tripped; distinct = distinct hash of the observation log",
     real_components: &["address::NetworkAddress (encode/decode four words via four-word-networking, Display, FromStr, serde)", "DhtNetworkManager (handle_peer_connected, reply building, dial_candidate, multiaddr_from_address)", "DhtCoreEngine::add_node admission gates and IPDiversityEnforcer counters", "TransportHandle connect path up to the seam"],
     stubbed_components: &["ant-quic: in-memory network keyed by socket address"],
     assumptions: &["a word-form variant may be rejected; it must never decode to a different address", "the direct round-trip calls are input sampling, not simulation; they are reported separately in the probes"],
@@ -49,6 +49,17 @@ fn v6_of(r: &mut Rng, class: &str) -> Ipv6Addr {
         "mapped" => Ipv4Addr::new(11 + r.below(200) as u8, r.below(256) as u8, r.below(256) as u8, 1 + r.below(250) as u8).to_ipv6_mapped(),
         "link_local" => Ipv6Addr::new(0xfe80, 0, 0, 0, x, y, 1, 1 + r.below(100) as u16),
         "unique_local" => Ipv6Addr::new(0xfd00 + r.below(256) as u16, x, y, 0, 0, 0, 0, 1),
+        // every group drawn: nothing for the encoder to compress
+        "full" => { let g: Vec<u16> = (0..8).map(|i| if i == 0 { 0x2000 + r.below(0x1000) as u16 } else { 1 + r.below(0xfffe) as u16 }).collect(); Ipv6Addr::new(g[0], g[1], g[2], g[3], g[4], g[5], g[6], g[7]) }
+        // well-known prefixes followed by drawn groups (the encoder has special cases for several of them)
+        "prefixed" => {
+            let pre: &[u16] = *r.pick(&[&[0x2001, 0x0db8][..], &[0x2001, 0][..], &[0x2002][..], &[0x2600][..], &[0x2a00, 0x1450][..], &[0xff02][..], &[0x64, 0xff9b][..], &[0xfe80][..], &[0xfc00][..], &[0x2001, 0x0db8, 0xffff][..]]);
+            let mut g: Vec<u16> = pre.to_vec();
+            let zero_run = r.chance(1, 3);
+            while g.len() < 8 { g.push(if zero_run && g.len() < 6 { 0 } else { r.below(0x10000) as u16 }); }
+            Ipv6Addr::new(g[0], g[1], g[2], g[3], g[4], g[5], g[6], g[7])
+        }
+        "random" => Ipv6Addr::from(((r.next_u64() as u128) << 64) | r.next_u64() as u128),
         _ => Ipv6Addr::new(0x2001, 0x0db8 + r.below(100) as u16, x, y, 0, 0, 0, 1 + r.below(100) as u16),
     }
 }
@@ -67,7 +78,7 @@ fn generate(seed: u64, tier: Tier) -> Value {
             "v4" => SocketAddr::new(IpAddr::V4(Ipv4Addr::new(*r.pick(&[1u8, 11, 126, 128, 191, 192, 223]), *r.pick(&OCT), *r.pick(&OCT), 1 + i as u8)), port),
             "v4_loopback" => SocketAddr::new(IpAddr::V4(Ipv4Addr::new(127, 0, 0, 1)), 20000 + i as u16 * 7 + r.below(5) as u16),
             "v6_global" => SocketAddr::new(IpAddr::V6(v6_of(&mut r, "global")), port),
-            _ => { let c = *r.pick(&["loopback", "mapped", "link_local", "unique_local", "global"]); SocketAddr::new(IpAddr::V6(v6_of(&mut r, c)), if c == "loopback" { 21000 + i as u16 } else { port }) }
+            _ => { let c = *r.pick(&["loopback", "mapped", "link_local", "unique_local", "global", "full", "prefixed"]); SocketAddr::new(IpAddr::V6(v6_of(&mut r, c)), if c == "loopback" { 21000 + i as u16 } else { port }) }
         };
         nodes.push(json!({"tid_salt": r.below(1 << 40), "addr": addr.to_string()}));
     }
@@ -101,7 +112,7 @@ fn direct_addresses(sc: &Value) -> Vec<SocketAddr> {
         out.push(SocketAddr::new(IpAddr::V4(Ipv4Addr::new(a, b, c, d)), p));
     }
     for _ in 0..8 { let x = r.next_u64(); out.push(SocketAddr::new(IpAddr::V4(Ipv4Addr::from((x >> 16) as u32)), x as u16)); }
-    for c in ["loopback", "mapped", "link_local", "unique_local", "global", "global", "global", "mapped"] {
+    for c in ["loopback", "mapped", "link_local", "unique_local", "global", "full", "prefixed", "prefixed", "prefixed", "random"] {
         let ip = v6_of(&mut r, c);
         out.push(SocketAddr::new(IpAddr::V6(ip), *r.pick(&[0u16, 1, 443, 65535])));
     }
